@@ -68,7 +68,7 @@ const N_LINES: u64 = 8;
 /// subset of the levels of a three-level nest, an eight-level nest, record sets whose file order is
 /// independent of their address order, empty ranges standing alone) only into the `nests` and `stackframe` spaces.
 const N_INL: u64 = 11;
-const N_INL_ALL: u64 = 33;
+const N_INL_ALL: u64 = 34;
 /// the six file orders of three records
 const PERM3: [[usize; 3]; 6] = [[0, 1, 2], [0, 2, 1], [1, 0, 2], [1, 2, 0], [2, 0, 1], [2, 1, 0]];
 const N_F2SUB: u64 = 2;
@@ -152,6 +152,8 @@ fn inl_menu(m: u64, a: u64) -> Vec<InlineRec> {
             let f = |level: u64| if m - 30 == level { 9 } else { 1 };
             vec![i(0, 1, f(0), 1, &[(a, 4)]), i(1, 2, f(1), 2, &[(a, 2), (a + 3, 1)]), i(2, 1, f(2), 3, &[(a + 1, 1)])]
         }
+        // twenty levels (depth 0..=19): ten over [a, a+6), ten more over [a+1, a+4); origins in1..in3 in rotation
+        33 => (0..20u32).map(|d| i(d, d + 1, 1, 1 + d % 3, &[(a + (d / 10) as u64, 6 - 3 * (d / 10))])).collect(),
         _ => unreachable!(),
     }
 }
@@ -796,7 +798,7 @@ fn main() {
         let mut def = CheckDef::new(
             "C11",
             "exploration",
-            "bounded-exhaustive: every symbol file of the menu product {FUNC f0 at 1|3 size 0|1|3|6} x {FUNC f1 at 0..10 size 0|1|2|4} x {8 line tables: sizes 0..6, line numbers 0,1,2,5,6,9, nested, duplicate, unknown file} x {11 INLINE sets: depth 0..2, multi-range, origin outside/inside a FUNC block/undefined, call line 0/1/2, unknown call file, same-depth overlap, empty range, duplicate key, depth gap} x {2 sub-record sets of f1} x {9 PUBLIC sets} x {4 STACK WIN sets} (thorough: x {third FUNC: none | 8 placements} x {file order of f0,f1}), parsed by the real parser and queried by SymbolFile::fill_symbol at offsets -1..=17 under module bases 0, 0x1000, 2^64-16; expected = linear scan over the generator's records. Space `nests` (what happens inside one FUNC): {f0 at 1|3 size 0|1|3|6} x {8 line tables} x {33 INLINE sets = the 11 above + the three-level nest (3 levels at a+1, 2 at a and a+3, 1 at a+2) with the origin id of every non-empty subset of its levels defined nowhere (outermost / middle / innermost / any two / all three dangling) + an eight-level nest (depth 0..7) whose levels 3 and 7 dangle + 10 sets whose order in the file is independent of the address order: three disjoint depth-0 records [a,1) [a+1,2) [a+4,2) in each of their 6 file orders, two depth-0 then two depth-1 records each depth with descending addresses, the same with the deeper level written first, multi-range records (3 ranges at depth 0, 2 at depth 1) whose ranges are listed with descending addresses, two depth-0 two-range records interleaved in the address space plus a depth-1 two-range record, every list descending; + a set with empty ranges standing alone (second range of a depth-0 record, only range of a depth-1 record): they cover no address + the three-level nest with the call file of its outermost / middle / innermost level declared nowhere} x {10 STACK WIN sets = the 4 above + FUNC split over two frame-data records with different sizes, FPO at the entry and frame data only further in, a record starting inside the FUNC with nothing at its entry and reaching beyond it, a record starting before the FUNC and covering only its first byte, three pieces of two types, pieces with gaps and the entry uncovered} x {f1 far behind with own sub-records | touching f0's end | inside f0} x {PUBLIC none | inside f0 | right behind f0}, same lookups and oracle. Space `stackframe`: one-FUNC files (all 33 INLINE sets, 4 STACK WIN sets - thorough: all 10) through walk_stack/Symbolizer into StackFrame. evaluations = lookups; distinct_nontrivial = distinct file shapes (menu choices x relative position of the FUNC ranges: before / touching / overlapping / nested / equal / empty) with at least one symbolicated address (+ distinct (file, address) pairs symbolicated in the StackFrame space).",
+            "bounded-exhaustive: every symbol file of the menu product {FUNC f0 at 1|3 size 0|1|3|6} x {FUNC f1 at 0..10 size 0|1|2|4} x {8 line tables: sizes 0..6, line numbers 0,1,2,5,6,9, nested, duplicate, unknown file} x {11 INLINE sets: depth 0..2, multi-range, origin outside/inside a FUNC block/undefined, call line 0/1/2, unknown call file, same-depth overlap, empty range, duplicate key, depth gap} x {2 sub-record sets of f1} x {9 PUBLIC sets} x {4 STACK WIN sets} (thorough: x {third FUNC: none | 8 placements} x {file order of f0,f1}), parsed by the real parser and queried by SymbolFile::fill_symbol at offsets -1..=17 under module bases 0, 0x1000, 2^64-16; expected = linear scan over the generator's records. Space `nests` (what happens inside one FUNC): {f0 at 1|3 size 0|1|3|6} x {8 line tables} x {34 INLINE sets = the 11 above + a twenty-level nest (depth 0..19) + the three-level nest (3 levels at a+1, 2 at a and a+3, 1 at a+2) with the origin id of every non-empty subset of its levels defined nowhere (outermost / middle / innermost / any two / all three dangling) + an eight-level nest (depth 0..7) whose levels 3 and 7 dangle + 10 sets whose order in the file is independent of the address order: three disjoint depth-0 records [a,1) [a+1,2) [a+4,2) in each of their 6 file orders, two depth-0 then two depth-1 records each depth with descending addresses, the same with the deeper level written first, multi-range records (3 ranges at depth 0, 2 at depth 1) whose ranges are listed with descending addresses, two depth-0 two-range records interleaved in the address space plus a depth-1 two-range record, every list descending; + a set with empty ranges standing alone (second range of a depth-0 record, only range of a depth-1 record): they cover no address + the three-level nest with the call file of its outermost / middle / innermost level declared nowhere} x {10 STACK WIN sets = the 4 above + FUNC split over two frame-data records with different sizes, FPO at the entry and frame data only further in, a record starting inside the FUNC with nothing at its entry and reaching beyond it, a record starting before the FUNC and covering only its first byte, three pieces of two types, pieces with gaps and the entry uncovered} x {f1 far behind with own sub-records | touching f0's end | inside f0} x {PUBLIC none | inside f0 | right behind f0}, same lookups and oracle. Space `stackframe`: one-FUNC files (all 34 INLINE sets, 4 STACK WIN sets - thorough: all 10) through walk_stack/Symbolizer into StackFrame. evaluations = lookups; distinct_nontrivial = distinct file shapes (menu choices x relative position of the FUNC ranges: before / touching / overlapping / nested / equal / empty) with at least one symbolicated address (+ distinct (file, address) pairs symbolicated in the StackFrame space).",
         );
         def.assumptions = vec![
             "exact comparison is made when no two valid FUNC ranges intersect, PUBLIC addresses are distinct, STACK WIN records of one type do not intersect, and within the FUNC covering the address no two line records intersect and no two same-depth INLINE ranges intersect; otherwise only the statement's weaker promises are checked (reported FUNC contains the address; reported PUBLIC is the nearest at or below it and is not cut off by a FUNC that overlaps nothing; a FUNC that overlaps nothing is reported for its addresses; source line / inline frames come from records of the reported FUNC covering the address; bases never exceed the instruction)".into(),
